@@ -21,7 +21,8 @@ RULE = (
     "grid duration{1,2,3} x outcome{value,Exception,BaseException,self-cancel,ignores first "
     "cancellation then runs 1 or 3 more} x timeout 2 x caller cancel at {never, before first "
     "step, 1, 2, 3, 5}; all orders of timers with equal deadline, with and without landing in "
-    "one loop iteration; non-trivial = not the plain 'value before deadline, no cancel' case"
+    "one loop iteration; wrapped function that is itself a wrapper object (timeout(10), throttle); "
+    "two overlapping calls through one wrapped function; non-trivial = not the plain 'value before deadline, no cancel' case"
 )
 ASSUMPTIONS = [
     "virtual time in exact dyadic units; timers with different deadlines fire in deadline order",
